@@ -1,7 +1,7 @@
 """Texts of MANIFEST.json per property (level claimed, trusted base)."""
 
 NOT_YET = {p: "not claimed yet: model and check are still being built in this round (see DESIGN.md section 5); no other technique is substituted" for p in
-           ["C03", "C04", "C12", "C14", "C15"]}
+           ["C12", "C15"]}
 
 TEXTS = {
     "C01": {
@@ -13,6 +13,21 @@ TEXTS = {
         "text": "Proof: C02_reopen: from every state satisfying the invariant Close's steps (drain oldest first, then flush the active memtable) are enabled, end with every memtable in tables, keep the committed history and the invariant, and the counter Open recomputes from stored versions equals the counter before the restart (no timestamp reused); C02_reopen_reads: every key reads as before; C02_still_writable. Correspondence: Close/Open cycles with re-drawn configuration inside the db suite (immediately after rotation, non-empty queue, empty memtable), nextTs, leftover files and all reads compared.",
         "note": "Trusted as C01; table files parsed back by recovery: C11. wal replay after clean Close is empty (checked dynamically).",
         "technique": "Lean 4 proof that Close/Open is a sequence of invariant-preserving steps + differential replay",
+    },
+    "C03": {
+        "text": "Proof: the disk is modelled abstractly (wal files with a synced record prefix, published tables, temporary files); every file-system operation is an event with a decidable guard (the ordering/durability rules: a table is published only complete, synced and with durable content; a wal is removed only when each record is synced in another wal or in a published table and no older record elsewhere could shadow it; inputs of a compaction are removed only when covered by another table; an acknowledgement needs the batch in the synced part of a wal). tinv_accept: every accepted event preserves Inv/WF/Kept/begun, so they hold at every crash point of every accepted trace, including crashes inside recovery (its operations are events). recover_inv: Open on any such disk yields a state satisfying the storage invariant (so the store keeps working: C03_open_recovers); C03_acked_visible, C03_nothing_invented. Tie: the crash suite serialises and records every fs operation of real workloads (flushes, multi-level compactions, Close/Open, slow flusher, pending queue) and replays it through Disk.accept in Lean; a crash image of the directory before every operation is opened with the real Open and compared with the model's recovery and with the acknowledged state; nested crashes inside recovery; a commit after recovery.",
+        "note": "Layer (ii) — that the engine only emits operations whose guards hold — is checked on recorded traces, not proved from a program model: the proof covers all traces that pass the guards, the correspondence covers the traces explored. Process-crash model as stated by the property.",
+        "technique": "Lean 4 inductive invariant over guarded fs operations + recovery refinement; trace acceptance and exhaustive-per-run crash point enumeration as the tie",
+    },
+    "C04": {
+        "text": "Proof: C04_all_or_nothing: in every accepted trace, at every crash point, a transaction whose commit event happened has all its entries kept (reachable or shadowed by a newer version), one whose commit event has not happened has none on disk; C04_written_visible after recovery; C04_split_commit_witness shows the one-append-per-key protocol of the pinned code violating it. Tie: crash suite — the in-flight multi-key transaction of every crash image must be visible completely or not at all; every wal write during a Commit must carry the whole batch (commit event accepted by the model).",
+        "note": "Process-crash model (as the property's quantifier). The accepted-trace hypothesis is checked dynamically (see C03).",
+        "technique": "Lean 4 invariant (Kept / begun) over accepted traces + crash point enumeration",
+    },
+    "C14": {
+        "text": "Proof: C14_lossy_crash: for every accepted trace, every crash point and every loss of unsynced tails (CutOf: each wal keeps at least its synced records; temporary files arbitrary; published tables intact) Open recovers an ordinary state and every acknowledged entry is visible unless replaced by a newer write; the 'equivalently' clause is the list of guards (C14_ack_after_sync, C14_publish_after_sync, C14_remove_after_replacement); C14_torn_wal_is_prefix links the byte level (C11). Tie: crash suite cuts the unsynced tail of every file at several lengths at every crash point and opens the result with the real Open; trace acceptance detects a missing or moved Sync deterministically.",
+        "note": "Directory operations ordered and durable (as the property states). Sync semantics of the OS trusted. Accepted-trace hypothesis checked dynamically.",
+        "technique": "Lean 4 proof that tail loss preserves the disk invariant + recovery theorem; trace acceptance + cut enumeration",
     },
     "C05": {
         "text": "Proof: Sys.step models Begin (timestamp, then wait for commitMark), Get, Set/Delete, Commit (commitStart under writeLock with conflict check, apply of the batch, commitDone), Discard, watermark publication and every background storage step, for any number of transactions; the coupling invariant SInv (storage content = entries of the applied commit history, version-discard watermark below every open reader, a transaction that has begun sees every commit up to its read timestamp applied) is proved for every step; C05_snapshot: every Get = own writes overlaid on the MVCC map at readTs, C05_stable, C05_prefix (whole transactions, prefix of commit order), C05_includes_earlier / C05_excludes_later (real-time clauses), C05_gc_safe. Correspondence: db suite with up to 6 interleaved open transactions incl. long-lived readers across rotation, flush, compaction with GC, every Get/readTs/watermark/compaction content replayed through the model.",
